@@ -278,7 +278,7 @@ func c13Mats(prows, pcols int, proj []float64, brows, bcols int, basis []float64
 func c13Direct(r *Rng, tier string, o *Out) {
 	maxLen := 400
 	if tier == "thorough" {
-		maxLen = 1500
+		maxLen = 1200
 	}
 	var npre, npost int
 	force := -1
@@ -441,7 +441,7 @@ func genC13(r *Rng, tier string, o *Out) {
 	c13Fixed(o)
 	n := 520
 	if tier == "thorough" {
-		n = 3400
+		n = 2500
 	}
 	for o.n < n {
 		if r.Chance(2) {
